@@ -1,6 +1,93 @@
-(* C09 — temporary (pre-fix) statement: the faithful model panics. *)
-From V Require Import Lib.Base Lib.MachineInt Model.C09.
+(* C09 — Relay per-client receive rate stays within the configured bucket.
+   This file holds ONLY the property theorems; each is closed by `exact`. *)
+From V Require Import Lib.Base Lib.MachineInt Model.C09 Proofs.C09.
 Import C09.
-Theorem C09_no_panic_refuted : exists i, model i = Panic.
-Proof. exists (SBucket I64_MAX I64_MAX 100000000, [Advance 200000000000; Consume 1])%Z. vm_compute. reflexivity. Qed.
-Print Assumptions C09_no_panic_refuted.
+Local Open Scope Z_scope.
+
+(* No bucket parameters (any i64 max and rate, any Duration as period), no byte
+   count, idle time or live reconfiguration makes Bucket::new / Bucket::consume /
+   RateLimited::poll_read panic: for EVERY setup and EVERY event list the model
+   returns a value or a rejected configuration.  (A Duration is non-negative.) *)
+Theorem C09_no_panic : forall setup es,
+  (match setup with SBucket _ _ per => 0 <= per | SReader _ => True end) ->
+  model (setup, es) <> Panic.
+Proof. exact no_panic. Qed.
+Print Assumptions C09_no_panic.
+
+(* Rate bound, readable form: a reader limited by any valid ClientRateLimit,
+   any sequence of polls (any bytes available, any buffer size) and time
+   advances whose total is below the horizon (2^32-1 ms): the bytes read are
+   below  burst + refill * (whole 100 ms periods elapsed) + the largest single read. *)
+Theorem C09_rate_bound : forall cf b es os k,
+  wf_cfg cf = true -> from_config 0 cf = Ok (Some b) ->
+  forallb wf_ev es = true -> no_reconfig es = true ->
+  model (SReader cf, es) = Ok (os, k) ->
+  elapsed es < HORIZON ->
+  bytes_read os < bmax b + (elapsed es / PER100) * refill b + max_read os.
+Proof. exact rate_bound. Qed.
+Print Assumptions C09_rate_bound.
+
+(* The general form, including live reconfiguration at arbitrary points and
+   bucket-mode deadlines: the monitor evaluated by the correspondence check
+   (every read happens while burst + refill accrued since the current limit
+   took effect exceeds the bytes already read under that limit; every
+   deadline is at most 2*now + u32::MAX periods; no panic) holds of the model
+   for EVERY input. *)
+Theorem C09_model_satisfies_monitor : forall i, monitor i (model i) = true.
+Proof. exact model_monitor. Qed.
+Print Assumptions C09_model_satisfies_monitor.
+
+(* One read permitted by the limiter (bucket positive now or after the whole
+   periods elapsed so far), of n bytes, at a time within the horizon of the
+   limit that took effect at t0: the bytes consumed before it are below
+   burst + refill * floor((now - t0) / period-in-whole-ms); the invariant is
+   re-established; a returned deadline again leads to a positive bucket. *)
+Theorem C09_read_within_budget : forall b t0 K C now n,
+  tinv b t0 K now -> finv b K C -> ready b now -> now - t0 < HORIZON ->
+  0 <= n <= I64_MAX ->
+  C < bmax b + ((now - t0) / pmns b) * refill b /\
+  finv (cons_bucket b now n) (K + periods_of b now) (C + n) /\
+  match cons_result b now n with
+  | None => ready (cons_bucket b now n) now
+  | Some d => ready (cons_bucket b now n) d \/ HORIZON <= d - t0
+  end.
+Proof. exact cons_step. Qed.
+Print Assumptions C09_read_within_budget.
+
+(* Resume bound: the deadline returned by consume is no later than the first
+   refill instant of the bucket's own period grid at which the fill is positive
+   again (j is the least such period count), and equal to it unless the count
+   is clamped to u32::MAX or the fill saturated at i64::MIN. *)
+Theorem C09_resume_bound : forall b now n d,
+  wfp b -> cons_result b now n = Some d ->
+  let b' := cons_bucket b now n in
+  let j := (- fill b') / refill b' + 1 in
+  fill b' <= 0 /\
+  0 < fill b' + j * refill b' /\ fill b' + (j - 1) * refill b' <= 0 /\
+  d <= last_fill b' + j * period b' /\
+  (I64_MIN < fill b' -> j <= U32MAX -> d = last_fill b' + j * period b').
+Proof. exact deadline_is_first_positive. Qed.
+Print Assumptions C09_resume_bound.
+
+(* ... and the throttled reader does read at the first poll after the timer of
+   that deadline has fired, if the client has bytes. *)
+Theorem C09_reader_resumes : forall s b d now avail cap,
+  bkt s = Some b -> wfp b -> pend s = None -> refilled s = Some d ->
+  fired d now = true -> 0 < avail ->
+  exists s', poll s now avail cap = Ok (s', Some (Z.min avail cap)).
+Proof. exact resumes. Qed.
+Print Assumptions C09_reader_resumes.
+
+(* No stall: every deadline is finite and explicitly bounded. *)
+Theorem C09_no_stall : forall b t0 K now n d,
+  tinv b t0 K now -> cons_result b now n = Some d ->
+  d <= t0 + 2 * (now - t0) + U32MAX * period b.
+Proof. exact deadline_bound. Qed.
+Print Assumptions C09_no_stall.
+
+(* consume / update_state of the model are exactly these closed forms on every
+   well-formed bucket (links the theorems above to the executable model). *)
+Theorem C09_consume_closed_form : forall b now n,
+  wfp b -> consume b now n = Ok (cons_bucket b now n, cons_result b now n).
+Proof. exact consume_eq. Qed.
+Print Assumptions C09_consume_closed_form.
